@@ -1,4 +1,5 @@
 import Mainchain.Lemmas.EntTotal
+import Mainchain.Lemmas.Witness
 /-
 C14 — No history can halt the chain; failed transactions change nothing.
 
@@ -106,6 +107,35 @@ theorem c14_runMsgs_fails_if_any_message_fails (wall : Nat) (s : State) (pre : L
 
 -- non-vacuity: a concrete state with an accepted order satisfies the room hypothesis
 example : (2 : Int) ^ 255 = 57896044618658097711785492504343953926634992332820282019728792003956564819968 := by decide
+
+/-- **known finding halt/B-denom-change, negation witness.**  With an accepted order waiting for completion,
+a governance change of the enterprise denomination makes the next `BeginBlock` panic (`Coin.Add` on `atoken`
+and `nund`) — and every later one, since the order stays queued; without the change the same block completes
+the order.  `c14_begin_block_never_panics` excludes such histories by `BooksQ`. -/
+def hAccepted : State := dBegin dDecided 1700000010
+
+def hChanged : State :=
+  (govExec 0 hAccepted (.entParams (.ok Mgov false) { dGen.ent with denom := "atoken" })).1
+
+theorem c14_denom_change_halts :
+    hAccepted.ent.acceptedQ = [1] ∧ hChanged.ent.params.denom = "atoken" ∧
+    (beginBlock Facts.beginBlockSteps { hAccepted with time := 1700000015 * nsPerSec }).isOk = true ∧
+    (beginBlock Facts.beginBlockSteps { hChanged with time := 1700000015 * nsPerSec }).isOk = false ∧
+    (beginBlock Facts.beginBlockSteps { hChanged with time := 1700000020 * nsPerSec }).isOk = false := by
+  decide +kernel
+
+/-- **known finding halt/B-int-overflow, negation witness.**  Two accepted orders of 2^255 nund: completing the
+second overflows the bank's 256-bit supply integer and `BeginBlock` panics.  `BlockRoom` excludes it. -/
+def oDecided : State :=
+  [dTx 3 (.entRaise (.ok 3 false) (2 ^ 255) "nund"), dTx 3 (.entRaise (.ok 3 false) (2 ^ 255) "nund"),
+   dTx 0 (.entDecide 1 2 (.ok 0 false)), dTx 1 (.entDecide 1 2 (.ok 1 false)),
+   dTx 0 (.entDecide 2 2 (.ok 0 false)), dTx 1 (.entDecide 2 2 (.ok 1 false))].foldl
+    (fun s tx => (deliverTx Facts.anteOrder 0 s tx).1) { initState dGen with time := 1700000005 * nsPerSec }
+
+theorem c14_orders_overflow_halts :
+    (dBegin oDecided 1700000010).ent.acceptedQ = [1, 2] ∧
+    (beginBlock Facts.beginBlockSteps { dBegin oDecided 1700000010 with time := 1700000015 * nsPerSec }).isOk = false := by
+  decide +kernel
 
 end C14
 end Mainchain
